@@ -30,7 +30,7 @@ PARTIAL = ("rounding error of the floating-point sums is not modelled (exact rat
            "for the two-input-cell family only (resample_*_partial), general meshes by correspondence + oracle, and NOT "
            "conserved for an output cell strictly inside one input cell (proved for every such cell; known finding F25); "
            "peak parameters only for non-negative values (known finding F8); refusal of _filterMesh on close anchors proved "
-           "for preference bottom; getBlockAtElevation and average1DWithinTolerance are modelled and tied but carry no theorem")
+           "for preference bottom only")
 ASSUMPTIONS = [
     "Block.setNumberDensities / getNumberDensity on a homogenized block store and return the mapped densities "
     "(checked on every case to 1e-9 relative)",
@@ -175,6 +175,14 @@ def snap(a, nucs):
     return out
 
 
+def arr_total(blocks):
+    """sum of the array-valued integrated parameter over blocks; None if some block lacks a 3-vector"""
+    vals = [b[INT_ARR] for b in blocks]
+    if any(v is None or len(v) != 3 for v in vals):
+        return None
+    return np.sum(vals, axis=0)
+
+
 def overlap(zb, zt, lo, hi):
     return max(0.0, min(zt, hi) - max(zb, lo))
 
@@ -208,11 +216,10 @@ def oracle_mapping(ctx, case, S, D, tol, has_none, neg_peak, hyp_ok=True):
             if not fclose(p0, p1, tol):
                 ctx.fail("remap-integrated-total", f"assembly total of a volume-integrated parameter ({nm}) is conserved",
                          case, observed=p1, expected=p0)
-        f0 = np.sum([b[INT_ARR] for b in S], axis=0)
-        f1 = np.sum([b[INT_ARR] for b in D], axis=0)
-        if not all(fclose(x, y, tol) for x, y in zip(f0, f1)):
+        f0, f1 = arr_total(S), arr_total(D)
+        if f0 is not None and (f1 is None or not all(fclose(x, y, tol) for x, y in zip(f0, f1))):
             ctx.fail("remap-integrated-total-array", "assembly total of an array-valued integrated parameter is conserved",
-                     case, observed=list(f1), expected=list(f0))
+                     case, observed=None if f1 is None else list(f1), expected=list(f0))
         for d in D:
             ws = [(overlap(s["zb"], s["zt"], d["zb"], d["zt"]), s) for s in S]
             H = d["zt"] - d["zb"]
@@ -441,7 +448,7 @@ def run_repeated(ctx):
         srcmesh0 = [0.0] + [b["zt"] for b in S0]
         atoms0 = {n: sum(b["nd"][n] * b["h"] for b in S0) for n in nucs}
         p0 = sum(b[INT_P] for b in S0)
-        f0 = np.sum([b[INT_ARR] for b in S0], axis=0)
+        f0 = arr_total(S0)
         pool = [gen_mesh(ctx.rng, H, srcmesh0, k) for k in ("tiny", "shifted", "finer", "tiny", "coarser")] + [srcmesh0]
         src = a0
         nsteps = ctx.rng.randint(10, 30)
@@ -463,10 +470,11 @@ def run_repeated(ctx):
                     ctx.fail("repeated-remap-atoms-drift", f"after {step + 1} successive re-meshings the atoms of {n} still "
                              "equal the original", case, observed=a1, expected=atoms0[n])
             p1 = sum(b[INT_P] for b in D)
-            f1 = np.sum([b[INT_ARR] for b in D], axis=0)
-            if not fclose(p0, p1, 1e-9) or not all(fclose(x, y, 1e-9) for x, y in zip(f0, f1)):
+            f1 = arr_total(D)
+            if not fclose(p0, p1, 1e-9) or f1 is None or not all(fclose(x, y, 1e-9) for x, y in zip(f0, f1)):
                 ctx.fail("repeated-remap-integrated-drift", f"after {step + 1} successive re-meshings the integrated totals "
-                         "still equal the original", case, observed=[p1, list(f1)], expected=[p0, list(f0)])
+                         "still equal the original", case, observed=[p1, None if f1 is None else list(f1)],
+                         expected=[p0, list(f0)])
             for d in D:
                 if not fclose(d[AVG_C], const, 1e-11):
                     ctx.fail("remap-constant-stays-constant", "a constant profile stays constant", case,
